@@ -175,3 +175,35 @@ def rename(m, mapping):
             nb.append(act)
     out["build"] = nb
     return out
+
+
+
+# ---------------------------------------------------------------------------------------
+# complex-Hermitian models (complex matrix-element build only)
+def complex_models(rng, n):
+    """Hermitian models with complex hopping / spin-flip / pair amplitudes, entered as user terms t c^+_a c_b + conj(t) c^+_b c_a
+    and through the complex overload of addHopping"""
+    out = []
+    for k in range(n):
+        lay = random_layout(rng, 4)
+        S = {l: (o, s) for (l, o, s) in lay}
+        tr = [(l, a, z) for (l, o, s) in sorted(lay) for a in range(o) for z in range(s)]
+        b = []
+        for l in sorted(S):
+            b.append(P("addCoulombS", l, rng.choice([0, 8, -4]), rng.choice([0, -4, 4])))
+        if len(tr) >= 2:
+            for _ in range(rng.randint(1, 3)):
+                x, y = rng.sample(tr, 2)
+                re, im = rng.choice([0, 4, -8, 2]), rng.choice([4, -4, 8, 2])
+                if rng.random() < 0.5:
+                    b.append(P("addHopping8c", x[0], y[0], re, im, x[1], y[1], x[2], y[2]))
+                else:
+                    b.append(T([[1, x[0], x[1], x[2]], [0, y[0], y[1], y[2]]], re, im))
+                    b.append(T([[1, y[0], y[1], y[2]], [0, x[0], x[1], x[2]]], re, -im))
+            if rng.random() < 0.4:       # complex pair field
+                x, y = rng.sample(tr, 2)
+                re, im = rng.choice([4, 2]), rng.choice([4, -8])
+                b.append(T([[1, x[0], x[1], x[2]], [1, y[0], y[1], y[2]]], re, im))
+                b.append(T([[0, y[0], y[1], y[2]], [0, x[0], x[1], x[2]]], re, -im))
+        out.append(model("cplx%d" % k, lay, b))
+    return out
